@@ -35,10 +35,19 @@ type binder struct {
 	// carrier struct types whose fields are looked through (field-based): values stored into T.f
 	carriers map[string]bool
 	fieldSrc map[string][]ssa.Value // "Type.field" -> values stored (for carriers)
+	// structSrc: rendered text of a struct value that a module helper returned -> where it came from (shared between a
+	// binder and the binders made from it): `text.field` can then be read as what the helper put into that field
+	structSrc map[string]structSource
+}
+
+type structSource struct {
+	call *ssa.Call
+	idx  int
+	args []string
 }
 
 func newBinder(c *Ctx, carriers ...string) *binder {
-	b := &binder{c: c, memo: map[ssa.Value]string{}, busy: map[ssa.Value]bool{}, carriers: map[string]bool{}, fieldSrc: map[string][]ssa.Value{}, classOf: map[string]string{}}
+	b := &binder{c: c, memo: map[ssa.Value]string{}, busy: map[ssa.Value]bool{}, carriers: map[string]bool{}, fieldSrc: map[string][]ssa.Value{}, classOf: map[string]string{}, structSrc: map[string]structSource{}}
 	for _, k := range carriers {
 		b.carriers[k] = true
 	}
@@ -186,12 +195,28 @@ func (b *binder) bind1(v ssa.Value, d int) string {
 				if len(as) == len(cal.Params) {
 					if body := b.bodyOf(cal, as, x.Index, d); body != "" {
 						b.classOf[cal.Name()] = sigClass(cal)
-						return cal.Name() + "(" + strings.Join(as, ",") + ")#" + fmt.Sprint(x.Index) + "=>{" + body + "}"
+						out := cal.Name() + "(" + strings.Join(as, ",") + ")#" + fmt.Sprint(x.Index) + "=>{" + body + "}"
+						if _, isStruct := x.Type().Underlying().(*types.Struct); isStruct && b.structSrc != nil {
+							b.structSrc[out] = structSource{call, x.Index, as}
+						}
+						return out
 					}
 				}
 			}
 		}
-		return b.bindD(x.Tuple, d+1) + "#" + fmt.Sprint(x.Index)
+		out := b.bindD(x.Tuple, d+1) + "#" + fmt.Sprint(x.Index)
+		if call, ok := x.Tuple.(*ssa.Call); ok && b.structSrc != nil {
+			if _, isStruct := x.Type().Underlying().(*types.Struct); isStruct {
+				if cal := call.Call.StaticCallee(); cal != nil && !call.Call.IsInvoke() && b.c.P.isModuleFn(cal) && len(cal.Blocks) > 0 && !isProtoPkg(fnPkgPath(cal)) {
+					var as []string
+					for _, a := range call.Call.Args {
+						as = append(as, b.bindD(a, d+1))
+					}
+					b.structSrc[out] = structSource{call, x.Index, as}
+				}
+			}
+		}
+		return out
 	case *ssa.Lookup:
 		if _, isMap := x.X.Type().Underlying().(*types.Map); isMap {
 			if vals := b.mapSide(x.X, false, d); vals != "" {
@@ -255,7 +280,11 @@ func (b *binder) bind1(v ssa.Value, d int) string {
 	case *ssa.FieldAddr:
 		return "&" + b.fieldRef(x.X, x.Field, d)
 	case *ssa.Field:
-		return b.bindD(x.X, d+1) + "." + fieldName(x.X.Type(), x.Field)
+		base := b.bindD(x.X, d+1)
+		if r, ok := b.structField(base, x.Field, d); ok {
+			return r
+		}
+		return base + "." + fieldName(x.X.Type(), x.Field)
 	case *ssa.IndexAddr:
 		return "&" + b.bindD(x.X, d+1) + "[" + b.bindD(x.Index, d+1) + "]"
 	case *ssa.Index:
@@ -431,7 +460,12 @@ func (b *binder) fieldRef(base ssa.Value, field int, d int) string {
 		}
 		whole := cellStores(a)
 		for _, sv := range whole {
-			as = append(as, selectField(b.bindD(sv, d+1), fname))
+			bs := b.bindD(sv, d+1)
+			if r, ok := b.structField(bs, field, d); ok {
+				as = append(as, r) // a struct a helper returned, copied into this variable
+				continue
+			}
+			as = append(as, selectField(bs, fname))
 		}
 		// when the caller says where the value is used (useSite): the field still holds its zero value there unless an
 		// assignment of the whole variable or of this field dominates that point
@@ -493,8 +527,75 @@ func (b *binder) fieldRef(base ssa.Value, field int, d int) string {
 		bs = strings.TrimPrefix(bs, "&") // the address of the enclosing object: select the field of the object itself
 	case *ssa.FreeVar, *ssa.UnOp:
 		return selectField(bs, fname) // a captured variable / a loaded pointer: the field of the object it denotes
+	case *ssa.Parameter:
+		// a pointer parameter that stands for `&x.f` of the caller: the field of that object
+		if strings.HasPrefix(bs, "&") && !strings.HasPrefix(bs, "&(") {
+			bs = strings.TrimPrefix(bs, "&")
+		}
+	}
+	if r, ok := b.structField(bs, field, d); ok {
+		return r
 	}
 	return bs + "." + fname
+}
+
+// structField: base is the rendered text of a struct value that a module helper returned (see structSrc): the field is
+// what the helper's returns put there (a returned struct literal's field store), with the helper's parameters standing
+// for the call's arguments. Returns that hand back the zero struct (the `return T{}, false` exits) are left out when
+// another return builds a value.
+func (b *binder) structField(base string, field int, d int) (string, bool) {
+	if b.structSrc == nil || d > 20 {
+		return "", false
+	}
+	src, ok := b.structSrc[base]
+	if !ok {
+		return "", false
+	}
+	cal := src.call.Call.StaticCallee()
+	if cal == nil || len(src.args) != len(cal.Params) {
+		return "", false
+	}
+	sub := b.withArgs(cal, src.args)
+	var vals, zeros []string
+	for _, blk := range cal.Blocks {
+		ret, isRet := blk.Instrs[len(blk.Instrs)-1].(*ssa.Return)
+		if !isRet || src.idx >= len(ret.Results) {
+			continue
+		}
+		rv := ret.Results[src.idx]
+		switch x := rv.(type) {
+		case *ssa.Const:
+			zeros = append(zeros, "zero("+typeName(rv.Type())+")."+fieldName(rv.Type(), field))
+		case *ssa.UnOp:
+			al, isAl := x.X.(*ssa.Alloc)
+			if x.Op != token.MUL || !isAl {
+				return "", false
+			}
+			written := false
+			for _, r := range *al.Referrers() {
+				if _, isFA := r.(*ssa.FieldAddr); isFA {
+					written = true
+				}
+				if st, isSt := r.(*ssa.Store); isSt && st.Addr == ssa.Value(al) {
+					written = true
+				}
+			}
+			if !written {
+				zeros = append(zeros, "zero("+typeName(rv.Type())+")."+fieldName(rv.Type(), field))
+				continue
+			}
+			vals = append(vals, sub.fieldRef(al, field, d+1))
+		default:
+			return "", false
+		}
+	}
+	if len(vals) == 0 {
+		vals = zeros
+	}
+	if len(vals) == 0 {
+		return "", false
+	}
+	return alts(vals), true
 }
 
 func (b *binder) bindCall(x *ssa.Call, d int) string {
@@ -845,7 +946,79 @@ func (b *binder) classAllowed(cl string, allowed []string) bool {
 			return true
 		}
 	}
-	return false
+	// a helper that only applies allowed transformers to its own parameters and hands their results back (two cells
+	// decoded together, with a flag): every non-boolean result is, on every return, a constant or the value result of
+	// an allowed transformer applied to a parameter
+	var named []*ssa.Function
+	for _, g := range b.c.P.ModFns {
+		if g.Parent() == nil && g.Name() == cl && len(g.Blocks) > 0 && len(g.TypeArgs()) == 0 {
+			named = append(named, g)
+		}
+	}
+	if len(named) != 1 {
+		return false
+	}
+	h := named[0]
+	isParam := func(v ssa.Value) bool {
+		for _, prm := range h.Params {
+			if v == ssa.Value(prm) {
+				return true
+			}
+		}
+		return false
+	}
+	var okVal func(v ssa.Value, d int) bool
+	okVal = func(v ssa.Value, d int) bool {
+		if d > 6 {
+			return false
+		}
+		switch x := v.(type) {
+		case *ssa.Const:
+			return true
+		case *ssa.Phi:
+			for _, e := range x.Edges {
+				if !okVal(e, d+1) {
+					return false
+				}
+			}
+			return true
+		case *ssa.Extract:
+			call, ok := x.Tuple.(*ssa.Call)
+			if !ok || x.Index != 0 {
+				return false
+			}
+			return okVal(call, d+1)
+		case *ssa.Call:
+			cal := x.Call.StaticCallee()
+			if cal == nil || cal == h || len(x.Call.Args) != 1 || !isParam(x.Call.Args[0]) {
+				return false
+			}
+			cls := sigClass(cal)
+			for _, a := range allowed {
+				if a == cls {
+					return true
+				}
+			}
+		}
+		return false
+	}
+	n := 0
+	for _, blk := range h.Blocks {
+		ret, ok := blk.Instrs[len(blk.Instrs)-1].(*ssa.Return)
+		if !ok {
+			continue
+		}
+		for _, r := range ret.Results {
+			if shortType(r.Type()) == "bool" {
+				continue
+			}
+			n++
+			if !okVal(r, 0) {
+				return false
+			}
+		}
+	}
+	return n > 0
 }
 
 // containsForm: expr contains the form, where a "{class}" placeholder stands for any module function of that class.
@@ -957,7 +1130,7 @@ var classTypeRewrite func(t types.Type, s string) string
 // withArgs: a binder for the body of cal in which cal's parameters stand for the given (already bound) arguments.
 func (b *binder) withArgs(cal *ssa.Function, args []string) *binder {
 	sub := &binder{c: b.c, memo: map[ssa.Value]string{}, busy: map[ssa.Value]bool{}, carriers: b.carriers, fieldSrc: b.fieldSrc, classOf: b.classOf,
-		subst: map[*ssa.Parameter]string{}, inlineD: b.inlineD + 1, catForm: b.catForm}
+		subst: map[*ssa.Parameter]string{}, inlineD: b.inlineD + 1, catForm: b.catForm, structSrc: b.structSrc}
 	if b.catForm {
 		if b.catRaw == nil {
 			b.catRaw = map[string][]string{}
